@@ -49,7 +49,8 @@ def ob_parts(modname: str, ob: dict):
     mod = importlib.import_module(modname)
     node = _fn_node(mod, ob["func"])
     names = [a.arg for a in node.args.args]
-    return ast.unparse(node.args), _pres(ast.get_docstring(node) or ""), f"H.{ob['func']}({', '.join(names)})"
+    return (ast.unparse(node.args), _pres(ast.get_docstring(node) or "") + list(ob.get("extra_pres", [])),
+            f"H.{ob['func']}({', '.join(names)})")
 
 
 def gen_wrapper(pid: str, modname: str, ob: dict, extra_pre: list[str]) -> Path:
